@@ -727,6 +727,18 @@ func execHistClaims(res *Result, t *Trace, obj string, start *ClaimsDesc) {
 				res.Probes["no_valid_base"]++
 			}
 		}
+		if isClear {
+			// whatever it returns, a clear must leave zero components
+			scs, _ := c.GetSoftwareComponents()
+			if len(scs) != 0 {
+				res.violate("C11", "clear-leaves-components", sig, i, "SetSoftwareComponents([]) (err=%v) left %d components in place", err, len(scs))
+			}
+			res.Probes["sw_clear"]++
+			if err != nil {
+				res.Probes["sw_clear_returned_error"]++
+				continue
+			}
+		}
 		if err != nil {
 			if before != after {
 				res.violate("C11", "failed-setter-changed-object", sig, i, "%s setter %s failed (%v) but the claims-set changed:\n before: %s\n after:  %s", obj, op.K, err, before, after)
@@ -738,12 +750,7 @@ func execHistClaims(res *Result, t *Trace, obj string, start *ClaimsDesc) {
 		lastOK[op.K] = op
 		ci := claimIndex(op.K)
 		if isClear {
-			// must leave zero components
-			scs, _ := c.GetSoftwareComponents()
-			if len(scs) != 0 {
-				res.violate("C11", "clear-leaves-components", sig, i, "SetSoftwareComponents([]) left %d components", len(scs))
-			}
-			res.Probes["sw_clear"]++
+			// checked above
 		} else if ci >= 0 && ci < len(afterG) {
 			if want := expectedGetter(op); afterG[ci] != want {
 				res.violate("C11", "getter-differs-from-set-value", sig, i, "after a successful %s the getter shows %s, want %s", op.K, afterG[ci], want)
